@@ -67,6 +67,35 @@ def canon_env(fn):
     return env
 
 
+HELPERS = {}
+
+
+def set_helpers(fns):
+    """small helpers that read as their expression when identifiers are collected: non-public member functions and file-static
+    free functions whose whole body is `return expr;`"""
+    HELPERS.clear()
+    cand = {}
+    for f in fns.values():
+        b = f.get("body")
+        ss = b.get("s", []) if isinstance(b, dict) and b.get("k") == "Block" else []
+        if len(ss) == 1 and ss[0].get("k") == "Return" and ss[0].get("e") is not None:
+            if f.get("rect") and f.get("access", 0) != 0:
+                HELPERS[f["pat"]] = f
+            elif not f.get("rect") and f.get("kind") == "function":
+                cand[f["pat"]] = f
+    # a free function is a local helper if every call of it comes from the file that defines it
+    if cand:
+        callers = {}
+        for f in fns.values():
+            if f.get("body") is None:
+                continue
+            ffile = str(f.get("pat", "")).rsplit(":", 1)[0]
+            walk(f["body"], lambda n, ffile=ffile: callers.setdefault(n["cpat"], set()).add(ffile) if n.get("k") == "Call" and n.get("cpat") in cand else None)
+        for pat, f in cand.items():
+            if callers.get(pat) and callers[pat] == {str(pat).rsplit(":", 1)[0]}:
+                HELPERS[pat] = f
+
+
 def idc(e, env, ids, consts, depth=0, in_local=False):
     """identifiers and constants of an expression.  env: decl id -> identity string (canon_env), or ("expr", node, env2): the
     local / parameter stands for that expression (a single-assignment local for its initialiser, a parameter of an inlined helper
@@ -102,6 +131,13 @@ def idc(e, env, ids, consts, depth=0, in_local=False):
         return
     if k == "Member" and "v" not in e:
         ids.append(e.get("n") or e.get("f"))
+    elif k == "Call" and e.get("cpat") in HELPERS and depth < 8 and len(HELPERS[e["cpat"]].get("params", [])) == len(e.get("args", [])):
+        cal = HELPERS[e["cpat"]]
+        cenv = {p["d"]: ("expr", a, env) for p, a in zip(cal["params"], e["args"])}
+        idc(cal["body"]["s"][0]["e"], cenv, ids, consts, depth + 1, in_local)
+        if e.get("obj") is not None:
+            idc(e["obj"], env, ids, consts, depth, in_local)
+        return
     elif k == "Call":
         ids.append(e.get("cname"))
     if "v" in e and k not in ("Call", "Assign", "Bin", "Un", "Cast", "Cond", "Paren", "OpCall"):
@@ -158,7 +194,7 @@ def flat_env(fn):
     env = dict(canon_env(fn))
     pa = plainly_assigned_locals(fn)
     for d, ident in list(env.items()):
-        if ident.startswith("=") and d in pa:
+        if (ident.startswith("=") or ident.startswith("local<")) and d in pa:
             # a self-referencing update (x = f(x)) cannot be flattened
             selfref = [False]
             for val in pa[d]:
@@ -239,6 +275,7 @@ def inventory(facts):
     call is reached (astu.reach: nested ifs, guard clauses, else branches, loop conditions, && chains all give the same literals)"""
     from astu import reach_tagged, induction_locals, inlined_body, stmts_of, struct_like
     fns = functions_by(facts)
+    set_helpers(fns)
     by_pat = {f["pat"]: f for f in fns.values()}
     # statement-level calls of void members of the same class are seen through (astu.inlined_body), and a function that is only
     # ever such a helper is not a row of its own: extracting part of a function into a private helper, or inlining one, leaves
